@@ -416,6 +416,12 @@ def structures():
             ("D(a:d3)", lambda: Dict({"a": Discrete(3)})), ("D(c:d2)", lambda: Dict({"c": Discrete(2)})),
             ("T(D(a:d2),box)", lambda: Tuple((Dict({"a": Discrete(2)}), A[0]()))), ("T(D(a:d3),box)", lambda: Tuple((Dict({"a": Discrete(3)}), A[0]()))),
             ("D(t:T(d2,mb))", lambda: Dict({"t": Tuple((Discrete(2), MultiBinary(3)))}))]
+    # names up to "~" identify the space: +0.0 and -0.0 bounds describe the same box (equal, so they must hash alike); bounds one float32 ulp / less than 1e-8 apart are different boxes
+    ulp = float(np.nextafter(np.float32(1.0), np.float32(2.0)))
+    out += [("boxZ~pos", lambda: Box(jnp.array([0.0, 0.0]), jnp.array([1.0, 2.0]))), ("boxZ~neg", lambda: Box(jnp.array([-0.0, 0.0]), jnp.array([1.0, 2.0]))),
+            ("T(boxZ)~pos", lambda: Tuple((Box(jnp.array([0.0]), jnp.array([1.0])),))), ("T(boxZ)~neg", lambda: Tuple((Box(jnp.array([-0.0]), jnp.array([1.0])),))),
+            ("box-ulp", lambda: Box(jnp.array([-1.0, 0.0]), jnp.array([ulp, 2.0]))), ("box-tiny", lambda: Box(jnp.array([0.0, 1e-9]), jnp.array([1.0, 2.0]))),
+            ("D(a:box-ulp)", lambda: Dict({"a": Box(jnp.array([-1.0, 0.0]), jnp.array([ulp, 2.0]))})), ("D(a:box)", lambda: Dict({"a": A[0]()}))]
     return out
 
 
@@ -424,7 +430,7 @@ def native_equality():
     bad = []
     for (n1, f1), (n2, f2) in itertools.product(st, st):
         a, b = f1(), f2()
-        same = n1 == n2
+        same = n1.split("~")[0] == n2.split("~")[0]
         try:
             eq, eq2 = (a == b), (b == a)
             if bool(eq) != same or bool(eq2) != same:
@@ -465,6 +471,29 @@ def native_roundtrip():
     return bad, len(st)
 
 
+def native_box_eq_replay(model):
+    """R1: real Box.__eq__ / __hash__ on pairs of boxes whose bounds are equal, nearly equal (one float32 ulp, tiny vs zero, large magnitudes), clearly different, infinite, and of
+    different shape: a == b exactly when every bound is equal; equal boxes hash equally; a witness value separates unequal boxes."""
+    one = np.float32(1.0)
+    up = np.nextafter(one, np.float32(2.0))
+    big = np.float32(1e6)
+    cases = [((0.0, 1.0), (0.0, 1.0)), ((0.0, one), (0.0, up)), ((0.0, 1.0), (1e-9, 1.0)), ((-1e-9, 1.0), (0.0, 1.0)), ((0.0, big), (0.0, np.nextafter(big, np.float32(2e6)))),
+             ((0.0, 1.0), (0.0, 2.0)), ((-np.inf, 1.0), (-np.inf, 1.0)), ((-np.inf, 1.0), (-np.inf, up)), ((0.0, np.inf), (0.0, np.inf)), ((0.0, 1.0), (-0.0, 1.0))]
+    for (l1, h1), (l2, h2) in cases:
+        for shape in ((), (2,), (2, 3)):
+            a = Box(jnp.full(shape, l1, jnp.float32), jnp.full(shape, h1, jnp.float32))
+            b = Box(jnp.full(shape, l2, jnp.float32), jnp.full(shape, h2, jnp.float32))
+            exact = bool(np.array_equal(np.asarray(a.low), np.asarray(b.low)) and np.array_equal(np.asarray(a.high), np.asarray(b.high)))
+            got, got_r = bool(a == b), bool(b == a)
+            if got != exact or got_r != exact or (got and hash(a) != hash(b)):
+                return dict(reproduced=True, route="R1 (real Box.__eq__ / __hash__)", inputs=dict(shape=list(shape), a=[float(l1), float(h1)], b=[float(l2), float(h2)]),
+                            observed=dict(a_eq_b=got, b_eq_a=got_r, bounds_exactly_equal=exact, hashes_equal=hash(a) == hash(b)))
+    a, b = Box(jnp.zeros((2,)), jnp.ones((2,))), Box(jnp.zeros((3,)), jnp.ones((3,)))
+    if bool(a == b):
+        return dict(reproduced=True, route="R1 (real Box.__eq__)", inputs=dict(shapes=[[2], [3]]), observed=dict(a_eq_b=True))
+    return dict(reproduced=False, note=f"{3 * len(cases)} pairs incl. one-ulp and sub-atol differences: == is exact bound equality and agrees with hash")
+
+
 def unit_equality(S):
     S.under_contract(*[f"lerax.space:{c}.__eq__" for c in ("Box", "Discrete", "MultiBinary", "MultiDiscrete", "Dict", "Tuple")], *[f"lerax.space:{c}.__hash__" for c in ("Box", "Dict", "Tuple")],
                      "lerax.compatibility.gym:gym_space_to_lerax_space", "lerax.compatibility.gym:lerax_to_gym_space")
@@ -487,7 +516,7 @@ def unit_equality(S):
         pc = sand(*[ir.seq(c.scalar(), d) for c, d in zip(conds, dec)])
         same = z3.And(*[z3.And(a.low.at((i,)) == b.low.at((i,)), a.high.at((i,)) == b.high.at((i,))) for i in range(2)])
         goals.append(ir.simplies(pc, res.scalar() == same))
-    S.prove("Box.__eq__/exactly-equal-bounds", ctx, sand(*goals), function="lerax.space.box:Box.__eq__", what=f"Box == Box iff all bounds are equal, for all bound values ({len(paths)} paths)")
+    S.prove("Box.__eq__/exactly-equal-bounds", ctx, sand(*goals), function="lerax.space.box:Box.__eq__", replay=native_box_eq_replay, what=f"Box == Box iff all bounds are equal, for all bound values ({len(paths)} paths)")
 
 
 UNITS = [("contains", unit_contains), ("samples", unit_samples), ("canonical-flatten", unit_canonical_flatten), ("equality", unit_equality)]
